@@ -386,7 +386,7 @@ pub fn run(ctx: &Ctx, rep: &mut Report) {
             return;
         }
     }
-    let n = ctx.cases(320, 5_000);
+    let n = ctx.cases(320, 2_000);
     for index in ctx.indices(n) {
         if index % 10 == 9 {
             long_lived_vm(ctx, rep, index);
